@@ -48,7 +48,8 @@ def cargo_build(release=False):
                 f.write(toml)
         lock = os.path.join(HARNESS, "Cargo.lock")
         if not os.path.exists(lock):
-            shutil.copy(os.path.join(REPO, "Cargo.lock"), lock)
+            src_lock = os.path.join(REPO, "Cargo.lock")
+            shutil.copy(src_lock if os.path.exists(src_lock) else "/repo/Cargo.lock", lock)
         cmd = ["cargo", "build", "--offline", "--bins"] + (["--release"] if release else [])
         env_flags = ENV.get("RUSTFLAGS", "")
         ENV["RUSTFLAGS"] = (env_flags + " --cfg pelite_verif -Awarnings").strip()
